@@ -71,7 +71,7 @@ inductive Cmd
   | block (l : Nat) (c : Cmd)         -- `jump l` inside `c` ends here
   | loop (c : Cmd)                    -- `for { c }`: left only by `jump`/`ret`
   | guard (c a b : Cmd)               -- `start := p.current.Pos; c; if p.current.Pos == start { a } else { b }`
-deriving Repr, Inhabited
+deriving Repr, Inhabited, DecidableEq
 
 def seqs : List Cmd → Cmd
   | [] => .skip
@@ -238,6 +238,51 @@ def funOK (P : Prog) (f : Nat) : Bool :=
 /-- all contracts of `P` check -/
 def progOK (P : Prog) : Bool := (List.range P.funs.size).all (funOK P)
 
+/-! ## non-advancing calls -/
+
+/-- the calls written in `c` (not those inside callees) with, for each, the kinds the callee can be entered with while
+    the cursor is still at the reference point (the `N` component of the abstract state at the call) -/
+def sites (P : Prog) : Cmd → St → List (Nat × TokSet)
+  | .callF f _, st => [(f, st.1)]
+  | .seq x y, st => sites P x st ++ sites P y (ana P x st).norm
+  | .alt x y, st => sites P x st ++ sites P y st
+  | .block _ c, st => sites P c st
+  | .loop c, st => sites P c st.widen
+  | .guard c a b, st =>
+    let r := ana P c st
+    sites P c st ++ sites P a r.norm ++ sites P b (0, r.norm.2)
+  | _, _ => []
+
+/-- a rank table for one function: groups of kinds with their rank; first match wins -/
+abbrev RankTbl := List (TokSet × Nat)
+
+def rankOf : RankTbl → Nat → Nat
+  | [], _ => 0
+  | (S, r) :: t, k => if S.testBit k then r else rankOf t k
+
+def covers (rk : RankTbl) : Bool := (rk.foldl (fun acc p => acc ||| p.1) 0) &&& ALL == ALL
+
+/-- rank condition of one call site `p = (g, N)` in function `f`: for every kind of `N`, `rank g < rank f` -/
+def siteOK (ranks : Array RankTbl) (f : Nat) (p : Nat × TokSet) : Bool :=
+  p.2 == 0 ||
+  (covers (ranks.getD p.1 []) && covers (ranks.getD f []) &&
+    (ranks.getD p.1 []).all fun gg => (ranks.getD f []).all fun ff =>
+      (p.2 &&& gg.1 &&& ff.1 == 0) || decide (gg.2 < ff.2))
+
+/-- rank check of function `f`: whenever `f`, entered on a token of kind `k`, can call `g` with the cursor still on that
+    token, `rank g k < rank f k` -/
+def rankOK (P : Prog) (ranks : Array RankTbl) (f : Nat) : Bool :=
+  (sites P (P.body f) (ALL, 0)).all (siteOK ranks f)
+
+/-- every `loop` occurring in `c` has a certificate, or its body is one of the reviewed bodies `isA` -/
+def loopsCert (P : Prog) (isA : Cmd → Bool) : Cmd → Bool
+  | .seq a b => loopsCert P isA a && loopsCert P isA b
+  | .alt a b => loopsCert P isA a && loopsCert P isA b
+  | .block _ c => loopsCert P isA c
+  | .loop c => (loopOK P c || isA c) && loopsCert P isA c
+  | .guard c a b => loopsCert P isA c && loopsCert P isA a && loopsCert P isA b
+  | _ => true
+
 /-- how a `for` statement is dealt with -/
 inductive Kind
   | range         -- `for … range x`, x a slice/array/string/map/integer: finite by construction
@@ -258,8 +303,11 @@ structure Loop where
   cond : String
   /-- kinds with which the body can be entered (informative; the test is part of `body`) -/
   S : TokSet
-  /-- the body including the test of the loop condition: the loop is `for { body }` -/
+  /-- the body including the test of the loop condition: the loop is `for { body }`.  For kind `counter` this is the
+      skeleton over the virtual stream, otherwise the same as `fbody`. -/
   body : Cmd
+  /-- the token skeleton of the body as it occurs (under `.loop`) in the skeleton of the enclosing function -/
+  fbody : Cmd
 
 /-- the certificate check of one loop -/
 def certified (P : Prog) (L : Loop) : Bool :=
